@@ -69,8 +69,8 @@ MODELS = ["EOF", "ComplexEOF", "HilbertEOF", "ExtendedEOF", "SparsePCA", "POP", 
 # cross-set configurations whose PCA pre-reduction keeps all ("all") or nearly all (large integer) PCs: the PCA step is then
 # solved by the exact solver (n_modes > 80 % of the rank on small data), not by the randomized one of the default setting
 MODELS += ["MCA_allpc", "CPCCA_allpc", "RDA_intpc", "CPCCARotator_allpc"]
-NO_SAMPLE_PERM = {"HilbertEOF", "ExtendedEOF", "POP", "OPA", "EOFBootstrapper"}
-CROSS = {"CPCCA", "MCA", "MCARotator", "MCA_allpc", "CPCCA_allpc", "RDA_intpc", "CPCCARotator_allpc"}
+NO_SAMPLE_PERM = {"HilbertEOF", "ExtendedEOF", "POP", "OPA", "EOFBootstrapper", "OPA_wide", "ExtendedEOF_wide", "POP_wide"}
+CROSS = {"CPCCA", "MCA", "MCARotator", "MCA_allpc", "CPCCA_allpc", "RDA_intpc", "CPCCARotator_allpc", "MCA_wide", "CPCCA_wide"}
 ITERATIVE = {"SparsePCA", "EOFRotator", "MCARotator", "CPCCARotator_allpc"}
 RAGGED_EXTRA = ["EOF_std"]  # on the ragged base the scale is an average over the sample dimensions too: EOF(standardize=True)
 SHALLOW = {"CPCCARotator_allpc"}  # explored one level less deep than the others (0.7 s per fit)
@@ -95,7 +95,16 @@ def ndepth(n):
     return sum(1 for k in DEFAULT if n.get(k, 0) != 0)
 
 
+WIDE = "slow_wide"  # a 30 x (3 x 8) field with a slowly decaying spectrum: 24 features, so that a sketch of 5 + 10 columns is lossy
+WIDE_MODELS = ["EOF", "OPA_wide", "ExtendedEOF_wide", "POP_wide", "MCA_wide", "CPCCA_wide"]
+
+
 def base_data(seed, spec, cplx, ragged=False):
+    if spec == WIDE:
+        X = D.make_matrix(30, 24, "slow", 1.0, cplx, seed, salt=1)
+        Y = D.make_matrix(30, 4, "geometric", 1.0, False, seed, salt=2)
+        x = D.da_grid(X, 3, 8, lats=[-50.0, 10.0, 65.0], name="field")
+        return x, D.da_2d(Y, "time", "station", fcoord=["a", "b", "c", "d"], name="yfield")
     X = D.make_matrix(N, 6, spec, 1.0, cplx, seed, salt=1)
     Y = D.make_matrix(N, 4, "geometric", 1.0, False, seed, salt=2)
     if ragged:  # the same 9 samples scattered over 12 slots; the other 3 slots are fully missing in both fields
@@ -149,7 +158,9 @@ def _samples(o, order, sd, flip=False):
 
 def present(x, y, node, seed):
     ps = sample_perm(PSAM[node["psam"]], seed, x.sizes["time"])
-    x = x.isel(time=ps, lat=list(PLAT[node["plat"]]), lon=list(PLON[node["plon"]]))
+    nlon = x.sizes["lon"]
+    plon = list(PLON[node["plon"]]) if nlon == 2 else (list(range(nlon)) if node["plon"] == 0 else list(range(nlon))[::-1])
+    x = x.isel(time=ps, lat=list(PLAT[node["plat"]]), lon=plon)
     y = y.isel(time=ps)
     order = ORDERS[node["order"]]
     sp = SPLITS[node["split"]]
@@ -228,6 +239,17 @@ def build(model, names):
         m = xe.cross.RDA(n_modes=2, use_pca=True, n_pca_modes=(5, 4), solver="full", **kw)
     elif model == "multiCCA":
         m = xe.multi.CCA(n_modes=2, pca=False)
+    # ---- on the wide base: an EXACT solver is requested for a truncation (5 of 24 directions) that a sketch would not get right
+    elif model == "OPA_wide":
+        m = xe.single.OPA(n_modes=2, tau_max=2, n_pca_modes=5, solver="full", **kw)
+    elif model == "ExtendedEOF_wide":
+        m = xe.single.ExtendedEOF(n_modes=3, tau=1, embedding=2, n_pca_modes=5, solver="full", **kw)
+    elif model == "POP_wide":
+        m = xe.single.POP(n_modes=4, n_pca_modes=4, solver="full", **kw)
+    elif model == "MCA_wide":
+        m = xe.cross.MCA(n_modes=2, use_pca=True, n_pca_modes=(5, 3), solver="full", **kw)
+    elif model == "CPCCA_wide":
+        m = xe.cross.CPCCA(n_modes=2, alpha=0.5, use_pca=True, n_pca_modes=(5, 3), solver="full", **kw)
     if model == "EOFRotator":
         aux = xe.single.EOFRotator(n_modes=3, power=1)
     if model == "MCARotator":
@@ -282,9 +304,9 @@ def fit_and_canon(model, node, seed, spec, weights=False, ragged=False, want_obj
     else:
         out["components"] = canon_field(obj.components())
         out["scores"] = _samples_back(obj.scores().rename(None))
-        if model == "POP":
+        if model in ("POP", "POP_wide"):
             out["spectrum"] = obj.eigenvalues().rename(None)
-        elif model == "OPA":
+        elif model in ("OPA", "OPA_wide"):
             out["spectrum"] = obj.decorrelation_time().rename(None)
             out["filter_patterns"] = canon_field(obj.filter_patterns())
         else:
@@ -462,6 +484,14 @@ def cases(tier, seed):
         for m in TRANSFORMS:
             if applicable(m, n):
                 out.append(dict(node=n, model=m, spec="geometric", entry="new_data"))
+    # the wide base (24 features, slowly decaying spectrum): models asked for an exact solver whose inner truncation keeps 5 of
+    # 24 directions - if the request gets lost on the way to an inner model, a sketch decides and the result depends on layout
+    for n in nodes(1 if tier == "quick" else 2):
+        if n["sdims"] != 0:
+            continue
+        for m in WIDE_MODELS:
+            if applicable(m, n):
+                out.append(dict(node=n, model=m, spec=WIDE))
     # degenerate spectrum: projector comparison, EOF only, depth 1 (quick) / 2
     for n in nodes(1 if tier == "quick" else 2):
         out.append(dict(node=n, model="EOF", spec="flat_pair"))
@@ -490,7 +520,7 @@ def run_case(case, seed):
         else:
             if model in PHASE_FREE and k != "spectrum":
                 b = _align_phase(ref, got, k, a, b)
-            elif model == "POP" and k != "spectrum":
+            elif model in ("POP", "POP_wide") and k != "spectrum":
                 b = _align_own_phase(a, b)
             ds = O.compare_da(a, b, tol, k, attrs=False, name=False)
             if ds and _only_sign_ties(a, b, tol):
